@@ -624,7 +624,8 @@ impl Bgi {
         let mut pal = Palette::new();
         pal.clear();
         for c in colors {
-            pal.push(EGA_PALETTE[*c as usize].clone());
+            // EGA colour values are 6 bit
+            pal.push(EGA_PALETTE[*c as usize % EGA_PALETTE.len()].clone());
         }
         self.palette = pal;
     }
